@@ -62,6 +62,7 @@ class FitOutputManager:
         self.nb_of_patients_to_plot = outputs.nb_of_patients_to_plot
         self.periodicity_plot_patients = outputs.plot_patient_periodicity
         self.plot_sourcewise = outputs.plot_sourcewise
+        self.path_output = None
         if outputs.root_path is not None:
             self.path_output = Path(outputs.root_path)
             self.path_plot = Path(outputs.plot_path)
